@@ -13,6 +13,7 @@ import (
 	"github.com/refraction-networking/uquic/internal/verif/evlog"
 	"github.com/refraction-networking/uquic/internal/verif/quicworld"
 	"github.com/refraction-networking/uquic/internal/verif/simworld"
+	"github.com/refraction-networking/uquic/internal/verif/specgen"
 	"github.com/refraction-networking/uquic/internal/verif/wiretap"
 )
 
@@ -67,9 +68,9 @@ func TestVerifC02Parrots(t *testing.T) {
 			}
 		}
 	}
-	if l.Thorough() {
+	{
 		rng := l.Rand("c02k2")
-		for i := 0; i < 1400; i++ {
+		for i := 0; i < l.Pick(210, 12000); i++ {
 			id := quicworld.QUICIDNames[rng.IntN(len(quicworld.QUICIDNames))]
 			var fs []simworld.Fault
 			for j := 0; j < 2; j++ {
@@ -151,6 +152,137 @@ func TestVerifC02Parrots(t *testing.T) {
 				c.Violation("C02|leak|goroutines-alive-after-close", lk[0], nil)
 			}
 			c.Sample("dial-series", map[string]any{"case": cs.Name, "dials": len(sr.Dials), "faults_applied": sr.FaultsApplied})
+		})
+		c.End()
+	}
+}
+
+// ---- derived specs -------------------------------------------------------------------------
+
+type c02Derived struct {
+	Name      string            `json:"name"`
+	Base      string            `json:"base"` // a QUICID name, or "hello:<kind>" for a generated ClientHello
+	SCID      int               `json:"scid_len"`
+	InitPN    uint64            `json:"init_pn"`
+	TokenLen  int               `json:"token_len"`
+	Randomize bool              `json:"randomize_tp"`
+	Suppress  []uint64          `json:"suppress"`
+	UDPMin    int               `json:"udp_min"`
+	Builder   string            `json:"builder"` // keep nil random multi
+	Server    string            `json:"server"`
+	Sched     simworld.Schedule `json:"schedule"`
+}
+
+func (d *c02Derived) spec() (*quic.QUICSpec, error) {
+	var spec quic.QUICSpec
+	if len(d.Base) > 6 && d.Base[:6] == "hello:" {
+		spec = quic.QUICSpec{ClientHelloSpec: specgen.HelloSpec(d.Base[6:], specgen.DefaultQTP())}
+	} else {
+		s, err := quic.QUICID2Spec(quicworld.QUICIDs[d.Base])
+		if err != nil {
+			return nil, err
+		}
+		spec = s
+	}
+	ps := &spec.InitialPacketSpec
+	ps.SrcConnIDLength = d.SCID
+	ps.InitPacketNumber = d.InitPN
+	ps.InitPacketNumberLength = 0
+	ps.InitPacketNumberLengths = nil
+	ps.ClientTokenLength = d.TokenLen
+	spec.RandomizeTransportParameters = d.Randomize
+	spec.SuppressTransportParameters = d.Suppress
+	spec.UDPDatagramMinSize = d.UDPMin
+	switch d.Builder {
+	case "nil":
+		ps.FrameBuilder = nil
+	case "random":
+		ps.FrameBuilder = &quic.QUICRandomFrames{MinPING: 0, MaxPING: 3, MinCRYPTO: 1, MaxCRYPTO: 4}
+	case "multi":
+		ps.FrameBuilder = &quic.QUICMultiDatagramFrames{PerDatagram: []quic.QUICRandomFrames{{MinPING: 1, MaxPING: 2, MinCRYPTO: 2, MaxCRYPTO: 3}, {MinPING: 0, MaxPING: 1, MinCRYPTO: 1, MaxCRYPTO: 2}}}
+	}
+	return &spec, nil
+}
+
+func TestVerifC02Derived(t *testing.T) {
+	l := evlog.Open("C02")
+	defer l.Close()
+	rng := l.Rand("c02derived")
+	n := l.Pick(250, 6000)
+	bases := append([]string{"hello:small", "hello:mid", "hello:big1", "hello:pq", "hello:huge"}, quicworld.QUICIDNames...)
+	acts := []simworld.Action{{Kind: "drop"}, {Kind: "dup"}, {Kind: "delay", Delay: 40 * time.Millisecond}}
+	// transport parameters a conformant server does not require
+	optional := []uint64{27, 0x03, 0x0b, 0x0a, 0x0c, 0x20, 0x0e}
+	var cases []c02Derived
+	for i := 0; i < n; i++ {
+		d := c02Derived{Base: bases[rng.IntN(len(bases))], SCID: []int{0, 3, 8, 20}[rng.IntN(4)], InitPN: []uint64{0, 1, 2, 255}[rng.IntN(4)],
+			TokenLen: []int{0, 0, 16, 70}[rng.IntN(4)], Randomize: rng.IntN(2) == 0, UDPMin: []int{0, 1200, 1357}[rng.IntN(3)],
+			Builder: []string{"keep", "keep", "nil", "random", "multi"}[rng.IntN(5)], Server: []string{"default", "retry", "cid20"}[rng.IntN(3)]}
+		for _, id := range optional {
+			if rng.IntN(4) == 0 {
+				d.Suppress = append(d.Suppress, id)
+			}
+		}
+		for k := rng.IntN(3); k > 0; k-- {
+			d.Sched.Faults = append(d.Sched.Faults, simworld.Fault{Dir: wiretap.Dir(rng.IntN(2)), Ordinal: rng.IntN(6), Action: acts[rng.IntN(len(acts))]})
+		}
+		d.Name = fmt.Sprintf("derived/%05d/%s", i, d.Base)
+		cases = append(cases, d)
+	}
+	for i, cs := range cases {
+		if !l.Mine(i) {
+			continue
+		}
+		c := l.Begin("C02/"+cs.Name, cs)
+		if c == nil {
+			continue
+		}
+		synctest.Test(t, func(t *testing.T) {
+			spec, err := cs.spec()
+			if err != nil {
+				c.Violation("C02|derived|spec-error", err.Error(), nil)
+				return
+			}
+			opt := quicworld.Options{Schedule: cs.Sched, RTT: 10 * time.Millisecond, ClientKind: "spec", Spec: spec,
+				ServerConf: &quic.Config{MaxIdleTimeout: 60 * time.Second, HandshakeIdleTimeout: 20 * time.Second},
+				ClientConf: &quic.Config{MaxIdleTimeout: 60 * time.Second, HandshakeIdleTimeout: 20 * time.Second, KeepAlivePeriod: 3 * time.Second}}
+			switch cs.Server {
+			case "retry":
+				opt.VerifySourceAddress = func(net.Addr) bool { return true }
+			case "cid20":
+				opt.ServerCIDLen = 20
+			}
+			ts := quicworld.TransferSpec{Streams: []quicworld.StreamSpec{{Bytes: 2000, Reply: 2000}}, ChunkSeed: uint64(i)}
+			sr := quicworld.RunDialSeries(opt, 3, ts, 5*time.Second, i*10)
+			if sr.WorldErr != nil {
+				c.Violation("C02|harness|world", sr.WorldErr.Error(), nil)
+				return
+			}
+			class := fmt.Sprintf("base=%s|builder=%s", cs.Base, cs.Builder)
+			for _, d := range sr.Dials {
+				c.Eval(fmt.Sprintf("%s/dial%d", cs.Name, d.Index))
+				phase := fmt.Sprintf("dial=%d", min(d.Index+1, 2))
+				tr := map[string]any{"router": sr.RouterLog}
+				switch {
+				case d.DialErr != nil:
+					c.Violation(fmt.Sprintf("C02|derived|%s|%s|dial-error|%s", class, phase, c02ErrClass(d.DialErr)), fmt.Sprintf("dial %d: %v (accept: %v)", d.Index+1, d.DialErr, d.AcceptErr), tr)
+				case d.AcceptErr != nil:
+					c.Violation(fmt.Sprintf("C02|derived|%s|%s|accept-error", class, phase), fmt.Sprintf("dial %d: accept: %v", d.Index+1, d.AcceptErr), tr)
+				case d.Transfer.ClientCause != nil || d.Transfer.ServerCause != nil:
+					c.Violation(fmt.Sprintf("C02|derived|%s|%s|connection-error-during-echo|%s", class, phase, c02ErrClass(d.Transfer.ClientCause)),
+						fmt.Sprintf("dial %d: client cause %v; server cause %v", d.Index+1, d.Transfer.ClientCause, d.Transfer.ServerCause), tr)
+				case !d.Transfer.Completed || len(d.Viols) > 0:
+					c.Violation(fmt.Sprintf("C02|derived|%s|%s|echo-failed", class, phase), fmt.Sprintf("dial %d: %+v %+v", d.Index+1, d.Viols, d.Transfer.Outcomes), tr)
+				case d.ClientCauseAfterIdle != nil || d.ServerCauseAfterIdle != nil:
+					c.Violation(fmt.Sprintf("C02|derived|%s|%s|connection-error-after-echo|%s", class, phase, c02ErrClass(d.ClientCauseAfterIdle)),
+						fmt.Sprintf("dial %d: client cause %v; server cause %v", d.Index+1, d.ClientCauseAfterIdle, d.ServerCauseAfterIdle), tr)
+				default:
+					l.Count("derived_dials_ok", 1)
+				}
+			}
+			if lk := quicworld.BubbleGoroutines(); len(lk) > 0 {
+				c.Violation("C02|leak|goroutines-alive-after-close", lk[0], nil)
+			}
 		})
 		c.End()
 	}
